@@ -112,34 +112,37 @@ def _peel(ty):
     return t
 
 
-def root_path(f, e, tracked, depth=0, _shared=None):
+def root_path(f, e, tracked, depth=0, _shared=None, _suffix=()):
     """Walk an expression down to a tracked struct's field.
     tracked: {adt_name: set(fields)}.  Returns (adt, fields tuple, via list,
     shared) or None; `shared` is True when the chain passes through a shared
     borrow or a shared-deriving call (iter(), last(), get(), deref()): a later
     `&mut` then points at a derived local object (an iterator), not at the
-    field's storage."""
+    field's storage.  Nested projections (copies of `&mut State` held in
+    temporaries or closure upvars) are flattened: the field names met on the
+    way down are accumulated in `_suffix`."""
     via = []
     shared = [False] if _shared is None else _shared
-    while isinstance(e, tuple) and depth < 60:
+    suffix = tuple(_suffix)
+    while isinstance(e, tuple) and depth < 80:
         depth += 1
         tag = e[0]
         if tag in ('ref', 'rawptr'):
             if not e[1]:
-                # shared borrow of a place: only counts when the place is not a
-                # plain local (`&local` of an owned temp is how autoref works)
                 inner = e[2]
-                if isinstance(inner, tuple) and inner[0] == 'proj':
+                if isinstance(inner, tuple) and inner[0] == 'proj' and any(
+                        p != '*' and not p.isdigit() and not p.startswith('as ') for p in inner[2]):
                     shared[0] = True
             e = e[2]
         elif tag == 'cast':
             e = e[2]
         elif tag == 'proj':
             base = e[1]
-            path = [p for p in e[2]]
-            r = _root_of_proj(f, base, path, tracked)
+            path = tuple(e[2]) + suffix
+            r = _root_of_proj(f, base, list(path), tracked)
             if r is not None:
                 return r[0], r[1], via, shared[0]
+            suffix = path
             e = base
         elif tag == 'call':
             c = e[1]
@@ -150,18 +153,26 @@ def root_path(f, e, tracked, depth=0, _shared=None):
                 return None
             if c in DERIVE_MUT and e[2]:
                 via.append(c)
+                suffix = ()
                 e = e[2][0]
             elif c in _DERIVE_SHARED and e[2]:
                 via.append(c)
                 shared[0] = True
+                suffix = ()
                 e = e[2][0]
             else:
                 return None
         elif tag == 'phi':
             for x in e[1]:
-                r = root_path(f, x, tracked, depth, shared)
+                r = root_path(f, x, tracked, depth, shared, suffix)
                 if r is not None:
-                    return r
+                    return (r[0], r[1], via + r[2], r[3])
+            return None
+        elif tag in ('arg', 'undef', 'cycle'):
+            if suffix:
+                r = _root_of_proj(f, e, list(suffix), tracked)
+                if r is not None:
+                    return r[0], r[1], via, shared[0]
             return None
         else:
             return None
